@@ -58,6 +58,7 @@ func runHist(ci interface{}, s *vkit.Stats) error {
 	mode := map[int]bool{}
 	keepMode := map[int]bool{}
 	kept := map[int]mocker.VarMock{}
+	everMocked := map[int]bool{}
 	nontrivial := false
 	check := func(step int, what string) error {
 		for k, t := range st {
@@ -153,6 +154,7 @@ func runHist(ci interface{}, s *vkit.Stats) error {
 				return fmt.Errorf("step %d (%s): panicked: %v", step, what, pv)
 			}
 			t.mocked = true
+			everMocked[k] = true
 			t.cur = val
 			sets[k]++
 			kinds = append(kinds, op.K+"/"+vi.Type.Kind().String())
@@ -160,6 +162,28 @@ func runHist(ci interface{}, s *vkit.Stats) error {
 			if byName {
 				s.Class("by-name")
 			}
+		case "lookup":
+			// a handle is obtained and nothing is done with it yet
+			if pv := guard(func() { mk() }); pv != nil {
+				return fmt.Errorf("step %d (%s): panicked: %v", step, what, pv)
+			}
+			kinds = append(kinds, "lookup")
+		case "assign":
+			// the program itself assigns the variable before its first mock in this builder (possibly after a handle was looked up):
+			// that value is the pre-mock value. (After the first mock the statement pins the restored value to the one before
+			// THAT mock, so later assignments by the program are not generated.)
+			if t.mocked || everMocked[k] {
+				continue
+			}
+			val := vkit.Value(vi.Type, uint64(op.I[1])+17)
+			vi.Direct().Set(val)
+			t.cur = snapshot(vi.Direct())
+			s.Class("assigned-by-the-program-between-mocks")
+			if _, ok := kept[k]; ok {
+				s.Class("assigned-while-a-handle-exists")
+				nontrivial = true
+			}
+			kinds = append(kinds, "assign")
 		case "cancel":
 			if !t.mocked {
 				s.Class("cancel-without-set")
@@ -217,6 +241,7 @@ func runHist(ci interface{}, s *vkit.Stats) error {
 			}
 			b = mocker.Create()
 			kept = map[int]mocker.VarMock{}
+			everMocked = map[int]bool{}
 		}
 		if err := check(step, what); err != nil {
 			return err
@@ -238,7 +263,7 @@ func runHist(ci interface{}, s *vkit.Stats) error {
 	return nil
 }
 
-var opGen = vkit.OpGen([]string{"set", "apply", "cancel", "cancel2", "reset", "newbuilder"}, []int{8, 3, 3, 1, 2, 1}, 3)
+var opGen = vkit.OpGen([]string{"set", "apply", "cancel", "cancel2", "reset", "newbuilder", "lookup", "assign"}, []int{8, 3, 3, 1, 2, 1, 2, 2}, 3)
 
 func TestVerifC08(t *testing.T) {
 	if f, err := os.OpenFile(os.DevNull, os.O_WRONLY, 0); err == nil && os.Getenv("VERIF_VERBOSE") == "" {
